@@ -3,19 +3,36 @@ import PigeonVerif.Proofs.Frame
 namespace PV
 namespace RT
 
+theorem GInv.congr {E : Env} {s s' : PState} (h : GInv E s) (h1 : s'.global = s.global)
+    (h2 : s'.trace = s.trace) : GInv E s' := by
+  unfold GInv at *; rw [h1, h2]; exact h
+
 theorem Stk.refl (E : Env) (s : PState) : Stk E s s :=
-  ⟨Nat.le_refl _, rfl, rfl, rfl, rfl, rfl, fun _ => rfl⟩
+  ⟨Nat.le_refl _, rfl, rfl, rfl, rfl, rfl, fun _ => rfl, fun _ _ h => h, fun h => h⟩
 
 theorem Stk.trans {E : Env} {a b c : PState} (h1 : Stk E a b) (h2 : Stk E b c) : Stk E a c :=
   ⟨Nat.le_trans h1.cnt h2.cnt, h2.vtail.trans h1.vtail, h2.vlen.trans h1.vlen,
    h2.rstack.trans h1.rstack, h2.recov.trans h1.recov, h2.invert.trans h1.invert,
-   fun h => (h2.noState h).trans (h1.noState h)⟩
+   fun h => (h2.noState h).trans (h1.noState h), fun n hn h => h2.bnd n hn (h1.bnd n hn h), fun h => h2.ginv (h1.ginv h)⟩
+
+theorem Stk.panic_trans {E : Env} {a b c : PState} (h1 : Stk E a b) (h2 : PanicPost E b c) :
+    PanicPost E a c :=
+  ⟨Nat.le_trans h1.cnt h2.cnt, fun n hn h => h2.bnd n hn (h1.bnd n hn h)⟩
+
+theorem Stk.toPanic {E : Env} {a b : PState} (h : Stk E a b) : PanicPost E a b :=
+  ⟨h.cnt, fun n hn hb => Nat.le_succ_of_le (h.bnd n hn hb)⟩
+
+theorem PanicPost.of_cnt_eq {E : Env} {a b c : PState} (h : b.exprCnt = a.exprCnt)
+    (h2 : PanicPost E b c) : PanicPost E a c :=
+  ⟨h ▸ h2.cnt, fun n hn hb => h2.bnd n hn (h ▸ hb)⟩
 
 /-- a state that differs from `s` only in fields outside the frame -/
 theorem Stk.of_eq {E : Env} {s s' : PState} (h1 : s'.exprCnt = s.exprCnt) (h2 : s'.vstack = s.vstack)
     (h3 : s'.rstack = s.rstack) (h4 : s'.recoveryStack = s.recoveryStack)
-    (h5 : s'.maxFailInvert = s.maxFailInvert) (h6 : s'.state = s.state) : Stk E s s' :=
-  ⟨by omega, by rw [h2], by rw [h2], h3, h4, h5, fun _ => h6⟩
+    (h5 : s'.maxFailInvert = s.maxFailInvert) (h6 : s'.state = s.state)
+    (h7 : s'.global = s.global) (h8 : s'.trace = s.trace) : Stk E s s' :=
+  ⟨by omega, by rw [h2], by rw [h2], h3, h4, h5, fun _ => h6, fun _ _ h => by omega,
+   fun h => by unfold GInv at *; rw [h7, h8]; exact h⟩
 
 @[simp] theorem restore_off (s : PState) (pt : Savepoint) : (restore s pt).pt.pos.off = pt.pos.off := by
   unfold restore; split
@@ -53,7 +70,7 @@ theorem MemoOK.set {s : PState} {pt : Savepoint} {k : MemoKey} {t : MemoVal} (hm
   · exact h
   · exact hm e he
 
-macro "stk_eq" : tactic => `(tactic| exact Stk.of_eq (by simp) (by simp) (by simp) (by simp) (by simp) (by simp))
+macro "stk_eq" : tactic => `(tactic| exact Stk.of_eq (by simp) (by simp) (by simp) (by simp) (by simp) (by simp) (by simp) (by simp))
 
 section
 variable {E : Env} {rec : Expr → PState → Outcome}
@@ -98,7 +115,8 @@ theorem Outcome.sat_bind' {o : Outcome} {k : Val → Bool → PState → Outcome
 
 theorem Stk.restoreState (E : Env) (s : PState) (st : Store) : Stk E s (restoreState E s st) :=
   ⟨by simp, by simp, by simp, by simp, by simp, by simp,
-   fun h => by simp [RT.restoreState, h]⟩
+   fun h => by simp [RT.restoreState, h], fun _ _ h => by simpa using h,
+   fun h => h.congr (by simp) (by simp)⟩
 
 theorem restoreState_state {s0 s1 : PState} (h : Stk E s0 s1) :
     (RT.restoreState E s1 s0.state).state = s0.state := by
@@ -108,7 +126,7 @@ theorem restoreState_state {s0 s1 : PState} (h : Stk E s0 s1) :
   | false => simpa using h.noState hu
 
 abbrev Post (E : Env) (s0 : PState) (o : Outcome) : Prop :=
-  o.Sat (fun _ ok s' => Framed E s0 ok s') (fun s' => s0.exprCnt ≤ s'.exprCnt)
+  o.Sat (fun _ ok s' => Framed E s0 ok s') (fun s' => PanicPost E s0 s')
 
 theorem seq_frame (hrec : ∀ e s, FrameInv E s (rec e s)) (s0 : PState) :
     ∀ (es : List Expr) (s : PState) (acc : List Val), Stk E s0 s → MemoOK s →
@@ -118,7 +136,7 @@ theorem seq_frame (hrec : ∀ e s, FrameInv E s (rec e s)) (s0 : PState) :
     exact ⟨hs, nofun, nofun, hm⟩
   | e :: es, s, acc, hs, hm => by
     unfold parseSeq
-    apply Outcome.sat_bind' (wrap_frame hrec e s hm) (fun s' h => Nat.le_trans hs.cnt h)
+    apply Outcome.sat_bind' (wrap_frame hrec e s hm) (fun s' h => hs.panic_trans h)
     intro v ok s1 h
     cases ok with
     | true => exact seq_frame hrec s0 es s1 _ (hs.trans h.stk) h.memo
@@ -134,10 +152,11 @@ theorem seq_frame (hrec : ∀ e s, FrameInv E s (rec e s)) (s0 : PState) :
 
 theorem Stk.pushpop {s s1 : PState} (h : Stk E (pushV s) s1) : Stk E s (popV s1) := by
   have h1 := h.cnt; have h2 := h.vtail; have h3 := h.vlen; have h4 := h.rstack
-  have h5 := h.recov; have h6 := h.invert; have h7 := h.noState
-  simp at h1 h2 h3 h4 h5 h6 h7
+  have h5 := h.recov; have h6 := h.invert; have h7 := h.noState; have h8 := h.bnd
+  simp at h1 h2 h3 h4 h5 h6 h7 h8
   refine ⟨by simpa using h1, by simp [h2], ?_, by simpa using h4, by simpa using h5,
-    by simpa using h6, fun hu => by simpa using h7 hu⟩
+    by simpa using h6, fun hu => by simpa using h7 hu, fun n hn hb => by simpa using h8 n hn hb,
+    fun hg => (h.ginv (hg.congr (by simp) (by simp))).congr (by simp) (by simp)⟩
   simp [h2]
 
 theorem choice_frame (hrec : ∀ e s, FrameInv E s (rec e s)) (s0 : PState) (line col : Nat) :
@@ -151,7 +170,7 @@ theorem choice_frame (hrec : ∀ e s, FrameInv E s (rec e s)) (s0 : PState) (lin
     unfold parseChoice
     simp only []
     apply Outcome.sat_bind' (wrap_frame hrec alt (pushV s) (hm.congr (by simp)))
-      (fun s' h => Nat.le_trans hs.cnt (by simpa using h))
+      (fun s' h => hs.panic_trans (h.of_cnt_eq (by simp)))
     intro v ok s1 h
     have hpp := h.stk.pushpop
     cases ok with
@@ -177,7 +196,7 @@ theorem loop_frame (hrec : ∀ e s, FrameInv E s (rec e s)) (s0 : PState) (e : E
     unfold parseLoop
     simp only []
     apply Outcome.sat_bind' (wrap_frame hrec e (pushV s) (hm.congr (by simp)))
-      (fun s' h => Nat.le_trans hs.cnt (by simpa using h))
+      (fun s' h => hs.panic_trans (h.of_cnt_eq (by simp)))
     intro v ok s1 h
     have hpp := h.stk.pushpop
     cases ok with
@@ -221,7 +240,7 @@ theorem throw_frame (hrec : ∀ e s, FrameInv E s (rec e s)) (s0 : PState) (labe
     unfold parseThrow
     split
     · next r _ =>
-      apply Outcome.sat_bind' (wrap_frame hrec r s hm) (fun s' h => Nat.le_trans hs.cnt h)
+      apply Outcome.sat_bind' (wrap_frame hrec r s hm) (fun s' h => hs.panic_trans h)
       intro v ok s1 h
       cases ok with
       | true =>
@@ -241,15 +260,17 @@ theorem rule_frame (hrec : ∀ e s, FrameInv E s (rec e s)) (r : Rule) (s : PSta
   unfold parseRule
   simp only []
   apply Outcome.sat_bind' (wrap_frame hrec r.expr _ (hm.congr (by simp [pushV])))
-    (fun s' h => by simpa [pushV] using h)
+    (fun s' h => h.of_cnt_eq (by simp [pushV]))
   intro v ok s2 h
   have h1 := h.stk.cnt; have h2 := h.stk.vtail; have h3 := h.stk.vlen; have h4 := h.stk.rstack
   have h5 := h.stk.recov; have h6 := h.stk.invert; have h7 := h.stk.noState
-  have h8 := h.failState; have h9 := h.failOff
-  simp [pushV] at h1 h2 h3 h4 h5 h6 h7 h8 h9
+  have h8 := h.failState; have h9 := h.failOff; have h10 := h.stk.bnd
+  simp [pushV] at h1 h2 h3 h4 h5 h6 h7 h8 h9 h10
   simp only [Outcome.Sat]
   refine ⟨⟨by simpa [popV] using h1, by simp [popV, h2], by simp [popV, h2], by simp [popV, h4],
-    by simpa [popV] using h5, by simpa [popV] using h6, fun hu => by simpa [popV] using h7 hu⟩,
+    by simpa [popV] using h5, by simpa [popV] using h6, fun hu => by simpa [popV] using h7 hu,
+    fun n hn hb => by simpa [popV] using h10 n hn hb,
+    fun hg => (h.stk.ginv (hg.congr rfl rfl)).congr rfl rfl⟩,
     fun hb => by simpa [popV] using h8 hb, fun hb => by simpa [popV] using h9 hb,
     h.memo.congr (by simp [popV])⟩
 
@@ -274,7 +295,7 @@ theorem leader_frame (hrec : ∀ e s, FrameInv E s (rec e s)) (r : Rule) (s0 : P
     have hm1 : MemoOK (setMemoized s s0.pt (.rule r.name) last) := hm.set (fun hb => (hl hb).1)
     have hs1 : Stk E s (setMemoized s s0.pt (.rule r.name) last) := by stk_eq
     apply Outcome.sat_bind' (rule_frame hrec r _ hm1)
-      (fun s' h => Nat.le_trans hs.cnt (by simpa using h))
+      (fun s' h => hs.panic_trans (h.of_cnt_eq (by simp)))
     intro v ok s2 h
     have hs2 : Stk E s s2 := hs1.trans h.stk
     split
@@ -337,7 +358,8 @@ theorem charClass_frame (s0 s : PState) (c : ClassDesc) (hs : Stk E s0 s)
 /-- after a code block: the frame is untouched except for the stores -/
 theorem Stk.callBlock (blk : Nat) (s : PState) : Stk E s (callBlock E blk s).2 :=
   ⟨by simp, by simp, by simp, by simp, by simp, by simp,
-   fun hu => by simp [RT.callBlock, hu]⟩
+   fun hu => by simp [RT.callBlock, hu], fun _ _ h => by simpa using h,
+   fun _ => by simp [GInv, lastGlobal, RT.callBlock]⟩
 
 /-! ### code blocks -/
 
@@ -350,10 +372,8 @@ theorem runCodeBlock_frame (s0 s : PState) (blk : Nat) (k : BlockResult → PSta
   have hcb := Stk.callBlock (E := E) blk s
   split
   · simp only [Outcome.Sat]
-    exact Nat.le_trans hs.cnt hcb.cnt
-  · split
-    · exact hk _ _ (hs.trans (hcb.trans (by stk_eq))) (hm.congr (by simp)) (by simp)
-    · exact hk _ _ (hs.trans hcb) (hm.congr (by simp)) (by simp)
+    exact (hs.trans hcb).toPanic
+  · exact hk _ _ (hs.trans (hcb.trans (by stk_eq))) (hm.congr (by simp)) (by simp)
 
 theorem pred_frame (s0 s : PState) (blk : Nat) (f : BlockResult → Bool) (hs : Stk E s0 s)
     (hst : s.state = s0.state) (hoff : s.pt.pos.off = s0.pt.pos.off) (hm : MemoOK s) :
@@ -369,7 +389,7 @@ theorem action_frame (hrec : ∀ e s, FrameInv E s (rec e s)) (s0 s : PState) (b
     (hm : MemoOK s) : Post E s0 (parseAction E rec blk e1 s) := by
   unfold parseAction
   simp only []
-  apply Outcome.sat_bind' (wrap_frame hrec e1 s hm) (fun s' h => Nat.le_trans hs.cnt h)
+  apply Outcome.sat_bind' (wrap_frame hrec e1 s hm) (fun s' h => hs.panic_trans h)
   intro v ok s1 h
   cases ok with
   | false =>
@@ -378,17 +398,15 @@ theorem action_frame (hrec : ∀ e s, FrameInv E s (rec e s)) (s0 s : PState) (b
   | true =>
     simp only [if_true]
     generalize hs2 : ({ s1 with curPos := s.pt.pos, curText := sliceFrom E s1 s.pt } : PState) = s2
-    have h12 : Stk E s1 s2 := by subst hs2; exact ⟨Nat.le_refl _, rfl, rfl, rfl, rfl, rfl, fun _ => rfl⟩
+    have h12 : Stk E s1 s2 := by subst hs2; exact ⟨Nat.le_refl _, rfl, rfl, rfl, rfl, rfl, fun _ => rfl, fun _ _ h => h, fun h => h⟩
     have hm2 : MemoOK s2 := h.memo.congr (by subst hs2; rfl)
     have hcb := Stk.callBlock (E := E) blk s2
     have h0 := hs.trans (h.stk.trans (h12.trans hcb))
     split
-    · simp only [Outcome.Sat]; exact h0.cnt
+    · simp only [Outcome.Sat]; exact h0.toPanic
     · simp only [Outcome.Sat]
-      split
-      · exact ⟨h0.trans ((by stk_eq : Stk E _ (addErrAt E _ _ _)).trans (Stk.restoreState E _ _)),
+      exact ⟨h0.trans ((by stk_eq : Stk E _ (addErrAtOpt E _ _ _)).trans (Stk.restoreState E _ _)),
           nofun, nofun, hm2.congr (by simp)⟩
-      · exact ⟨h0.trans (Stk.restoreState E _ _), nofun, nofun, hm2.congr (by simp)⟩
 
 /-! ### one level of `parseExpr` -/
 
@@ -403,7 +421,7 @@ theorem body_frame (hrec : ∀ e s, FrameInv E s (rec e s)) (k : Nat) (e : Expr)
   | stateCode id blk =>
     simp only [parseStateCode]
     split
-    · simp only [Outcome.Sat]; exact hs.cnt
+    · simp only [Outcome.Sat]; exact hs.toPanic
     · apply runCodeBlock_frame s0 s blk _ hs hm
       intro r s2 hs2 hm2 _
       simp only [Outcome.Sat]
@@ -411,7 +429,7 @@ theorem body_frame (hrec : ∀ e s, FrameInv E s (rec e s)) (k : Nat) (e : Expr)
   | and id e1 =>
     simp only [parseAnd]
     apply Outcome.sat_bind' (wrap_frame hrec e1 (pushV s) (hm.congr (by simp)))
-      (fun s' h => Nat.le_trans hs.cnt (by simpa using h))
+      (fun s' h => hs.panic_trans (h.of_cnt_eq (by simp)))
     intro v ok s1 h
     have hpp := h.stk.pushpop
     simp only [Outcome.Sat]
@@ -422,14 +440,16 @@ theorem body_frame (hrec : ∀ e s, FrameInv E s (rec e s)) (k : Nat) (e : Expr)
     simp only [parseNot]
     have hm' : MemoOK ({ pushV s with maxFailInvert := !s.maxFailInvert } : PState) := hm.congr rfl
     apply Outcome.sat_bind' (wrap_frame hrec e1 _ hm')
-      (fun s' h => Nat.le_trans hs.cnt (by simpa [pushV] using h))
+      (fun s' h => hs.panic_trans (h.of_cnt_eq (by simp [pushV])))
     intro v ok s1 h
     have h1 := h.stk.cnt; have h2 := h.stk.vtail; have h3 := h.stk.vlen; have h4 := h.stk.rstack
-    have h5 := h.stk.recov; have h6 := h.stk.invert; have h7 := h.stk.noState
-    simp [pushV] at h1 h2 h3 h4 h5 h6 h7
+    have h5 := h.stk.recov; have h6 := h.stk.invert; have h7 := h.stk.noState; have h8 := h.stk.bnd
+    simp [pushV] at h1 h2 h3 h4 h5 h6 h7 h8
     have hpp : Stk E s (popV { s1 with maxFailInvert := !s1.maxFailInvert }) :=
       ⟨by simpa [popV] using h1, by simp [popV, h2], by simp [popV, h2], by simpa [popV] using h4,
-       by simpa [popV] using h5, by simp [popV, h6], fun hu => by simpa [popV] using h7 hu⟩
+       by simpa [popV] using h5, by simp [popV, h6], fun hu => by simpa [popV] using h7 hu,
+       fun n hn hb => by simpa [popV] using h8 n hn hb,
+       fun hg => (h.stk.ginv (hg.congr rfl rfl)).congr rfl rfl⟩
     simp only [Outcome.Sat]
     refine ⟨hs.trans (hpp.trans ((Stk.restoreState E _ s.state).trans (by stk_eq))), fun _ => ?_,
       fun _ => by simp [hoff], h.memo.congr (by simp [popV])⟩
@@ -444,7 +464,7 @@ theorem body_frame (hrec : ∀ e s, FrameInv E s (rec e s)) (k : Nat) (e : Expr)
   | labeled id label e1 =>
     simp only [parseLabeled]
     apply Outcome.sat_bind' (wrap_frame hrec e1 (pushV s) (hm.congr (by simp)))
-      (fun s' h => Nat.le_trans hs.cnt (by simpa using h))
+      (fun s' h => hs.panic_trans (h.of_cnt_eq (by simp)))
     intro v ok s1 h
     have hpp := h.stk.pushpop
     have h1 := h.failState; have h2 := h.failOff
@@ -455,7 +475,8 @@ theorem body_frame (hrec : ∀ e s, FrameInv E s (rec e s)) (k : Nat) (e : Expr)
       have hok : ok = true := by simp at hc; exact hc.1
       subst hok
       refine ⟨hs.trans (hpp.trans ?_), nofun, nofun, h.memo.congr (by simp)⟩
-      refine ⟨by simp, ?_, ?_, by simp, by simp, by simp, fun _ => by simp⟩
+      refine ⟨by simp, ?_, ?_, by simp, by simp, by simp, fun _ => by simp, fun _ _ h => by simpa using h,
+        fun h => h.congr (by simp) (by simp)⟩
       · unfold setLabel; split <;> simp_all
       · unfold setLabel; split <;> simp_all
     · exact ⟨hs.trans hpp, fun hb => by simp [h1 hb, hst], fun hb => by simp [h2 hb, hoff],
@@ -466,7 +487,7 @@ theorem body_frame (hrec : ∀ e s, FrameInv E s (rec e s)) (k : Nat) (e : Expr)
     exact Outcome.sat_mono this
       (fun v ok s' h => ⟨hs.trans h.stk, fun hb => (h.failState hb).trans hst,
         fun hb => (h.failOff hb).trans hoff, h.memo⟩)
-      (fun s' h => Nat.le_trans hs.cnt h)
+      (fun s' h => hs.panic_trans h)
   | oneOrMore id e1 => exact loop_frame hrec s0 e1 k s [] hs (fun _ => ⟨hst, hoff⟩) hm
   | zeroOrMore id e1 =>
     simp only [parseZeroOrMore]
@@ -476,27 +497,29 @@ theorem body_frame (hrec : ∀ e s, FrameInv E s (rec e s)) (k : Nat) (e : Expr)
   | zeroOrOne id e1 =>
     simp only [parseZeroOrOne]
     apply Outcome.sat_bind' (wrap_frame hrec e1 (pushV s) (hm.congr (by simp)))
-      (fun s' h => Nat.le_trans hs.cnt (by simpa using h))
+      (fun s' h => hs.panic_trans (h.of_cnt_eq (by simp)))
     intro v ok s1 h
     simp only [Outcome.Sat]
     exact ⟨hs.trans h.stk.pushpop, nofun, nofun, h.memo.congr (by simp)⟩
   | recovery id e1 r labels =>
     simp only [parseRecovery]
     apply Outcome.sat_bind' (wrap_frame hrec e1 (pushRecovery s labels r) (hm.congr (by simp)))
-      (fun s' h => Nat.le_trans hs.cnt (by simpa using h))
+      (fun s' h => hs.panic_trans (h.of_cnt_eq (by simp)))
     intro v ok s1 h
     have h1 := h.stk.cnt; have h2 := h.stk.vtail; have h3 := h.stk.vlen; have h4 := h.stk.rstack
     have h5 := h.stk.recov; have h6 := h.stk.invert; have h7 := h.stk.noState
-    have h8 := h.failState; have h9 := h.failOff
-    simp at h1 h2 h3 h4 h6 h7 h8 h9
+    have h8 := h.failState; have h9 := h.failOff; have h10 := h.stk.bnd
+    simp at h1 h2 h3 h4 h6 h7 h8 h9 h10
     simp only [Outcome.Sat]
     refine ⟨hs.trans ⟨by simpa using h1, by simpa using h2, by simpa using h3, by simpa using h4,
-        by simp [popRecovery, h5, pushRecovery], by simpa using h6, fun hu => by simpa using h7 hu⟩,
+        by simp [popRecovery, h5, pushRecovery], by simpa using h6, fun hu => by simpa using h7 hu,
+        fun n hn hb => by simpa using h10 n hn hb,
+        fun hg => (h.stk.ginv (hg.congr (by simp) (by simp))).congr (by simp) (by simp)⟩,
       fun hb => by simp [h8 hb, hst], fun hb => by simp [h9 hb, hoff], h.memo.congr (by simp)⟩
   | ruleRef id name =>
     simp only [parseRuleRef]
     split
-    · simp only [Outcome.Sat]; exact hs.cnt
+    · simp only [Outcome.Sat]; exact hs.toPanic
     · split
       · simp only [Outcome.Sat]
         exact ⟨hs.trans (by stk_eq), fun _ => by simp [hst], fun _ => by simp [hoff], hm.congr (by simp)⟩
@@ -504,14 +527,14 @@ theorem body_frame (hrec : ∀ e s, FrameInv E s (rec e s)) (k : Nat) (e : Expr)
         exact Outcome.sat_mono (ruleWrap_frame hrec k r s hm)
           (fun v ok s' h => ⟨hs.trans h.stk, fun hb => (h.failState hb).trans hst,
             fun hb => (h.failOff hb).trans hoff, h.memo⟩)
-          (fun s' h => Nat.le_trans hs.cnt h)
+          (fun s' h => hs.panic_trans h)
   | seq id es =>
     simp only []
     have := seq_frame hrec s es s [] (Stk.refl E s) hm
     exact Outcome.sat_mono this
       (fun v ok s' h => ⟨hs.trans h.stk, fun hb => (h.failState hb).trans hst,
         fun hb => (h.failOff hb).trans hoff, h.memo⟩)
-      (fun s' h => Nat.le_trans hs.cnt h)
+      (fun s' h => hs.panic_trans h)
   | throw id label => exact throw_frame hrec s0 label _ s hs hst hoff hm
 
 theorem step_frame (hrec : ∀ e s, FrameInv E s (rec e s)) (k : Nat) (e : Expr) (s0 : PState) :
@@ -519,9 +542,14 @@ theorem step_frame (hrec : ∀ e s, FrameInv E s (rec e s)) (k : Nat) (e : Expr)
   intro hm0
   unfold parseExprStep
   split
-  · simp [Outcome.Sat, bump]
-  · exact body_frame hrec k e s0 (bump s0) ⟨by simp [bump], rfl, rfl, rfl, rfl, rfl, fun _ => rfl⟩
+  · simp only [Outcome.Sat]
+    exact ⟨by simp [bump], fun n _ hb => by simpa [bump] using hb⟩
+  · next hob =>
+    refine body_frame hrec k e s0 (bump s0) ⟨by simp [bump], rfl, rfl, rfl, rfl, rfl, fun _ => rfl, ?_, fun h => h⟩
       rfl rfl (hm0.congr rfl)
+    intro n hn _
+    simp [overBudget, hn] at hob
+    exact hob
 
 end
 
